@@ -34,16 +34,17 @@ VARIABLES
     status,   \* see above (0 = none)
     cbseen,   \* set of <<k, instance>> exit-callback reports seen
     boReset,  \* clk of the latest backoff Reset
+    boStop,   \* clk of the latest NextBackOff that returned Stop (the backoff gave up)
     td,       \* teardown started
     bad
 
 pvars == <<cfg, clk, now, pctx, prt, epoch, inst, calls, snapw, chs, credit, creditR, needEnter,
-           ctxTouch, status, cbseen, boReset, td, bad>>
+           ctxTouch, status, cbseen, boReset, boStop, td, bad>>
 
 PInitCfg(variant, retry) ==
     /\ cfg = [variant |-> variant, retry |-> retry, burst |-> FALSE] /\ clk = 0 /\ now = 0 /\ pctx = 0 /\ prt = 0 /\ epoch = 0
     /\ inst = <<>> /\ calls = <<>> /\ snapw = <<>> /\ chs = <<>>
-    /\ credit = 0 /\ creditR = 0 /\ needEnter = 0 /\ ctxTouch = 0 /\ status = 0 /\ cbseen = {} /\ boReset = 0
+    /\ credit = 0 /\ creditR = 0 /\ needEnter = 0 /\ ctxTouch = 0 /\ status = 0 /\ cbseen = {} /\ boReset = 0 /\ boStop = 0
     /\ td = FALSE /\ bad = {}
 
 PInit == PInitCfg("plain", FALSE)
@@ -51,7 +52,7 @@ PInit == PInitCfg("plain", FALSE)
 PReset ==
     /\ cfg' = [variant |-> "plain", retry |-> FALSE, burst |-> FALSE] /\ clk' = 0 /\ now' = 0 /\ pctx' = 0 /\ prt' = 0 /\ epoch' = 0
     /\ inst' = <<>> /\ calls' = <<>> /\ snapw' = <<>> /\ chs' = <<>>
-    /\ credit' = 0 /\ creditR' = 0 /\ needEnter' = 0 /\ ctxTouch' = 0 /\ status' = 0 /\ cbseen' = {} /\ boReset' = 0
+    /\ credit' = 0 /\ creditR' = 0 /\ needEnter' = 0 /\ ctxTouch' = 0 /\ status' = 0 /\ cbseen' = {} /\ boReset' = 0 /\ boStop' = 0
     /\ td' = FALSE /\ bad' = {}
 
 Insts   == DOMAIN inst
@@ -83,6 +84,17 @@ PendingRerun(withCtx) ==
     \E id \in DOMAIN calls : ~calls[id].done /\
         (calls[id].op \in {"setroutine", "setstate", "setsr", "restart"} \/ (withCtx /\ calls[id].op = "setctx" /\ calls[id].r))
 
+\* A backoff retry is due "now": some run of this routine/state returned an error and its backoff
+\* interval (10) ended within the last advance of the clock (7).  While a fired timer's callback
+\* is pending no further time passes, so every entry caused by a retry timer satisfies this.
+\* This also accepts the code's stale-timer behaviour (O5 in DESIGN.md: a timer that fired but
+\* whose callback was overtaken by a RestartRoutine still restarts the routine once the restarted
+\* instance has exited -- even successfully): it depends on the schedule, which C14 does not
+\* quantify over; the weaker reading is taken.
+RetryDueNow(key) ==
+    \E j \in Insts : inst[j].key = key /\ ~inst[j].act /\ inst[j].out = "err"
+                      /\ now - 7 < inst[j].ltime + 10 /\ inst[j].ltime + 10 <= now
+
 Tick == clk' = clk + 1
 
 ErrName(i) == IF inst[i].out = "ok" THEN "nil" ELSE IF inst[i].out = "err" THEN "E" \o ToString(i) ELSE "canceled"
@@ -95,7 +107,7 @@ ErrName(i) == IF inst[i].out = "ok" THEN "nil" ELSE IF inst[i].out = "err" THEN 
 PConfig(variant, retry, burst) ==
     /\ cfg' = [variant |-> variant, retry |-> retry, burst |-> burst]
     /\ Tick
-    /\ UNCHANGED <<now, pctx, prt, epoch, inst, calls, snapw, chs, credit, creditR, needEnter, ctxTouch, status, cbseen, boReset, td, bad>>
+    /\ UNCHANGED <<now, pctx, prt, epoch, inst, calls, snapw, chs, credit, creditR, needEnter, ctxTouch, status, cbseen, boReset, boStop, td, bad>>
 
 \* e: the call event record
 PCall(e) ==
@@ -114,7 +126,7 @@ PCall(e) ==
     /\ ctxTouch' = IF w THEN ctxTouch ELSE clk + 1
     /\ Tick
     /\ bad' = bad \cup (IF e.id \in DOMAIN calls THEN {"Harness"} ELSE {})
-    /\ UNCHANGED <<cfg, now, pctx, prt, epoch, inst, snapw, chs, credit, creditR, needEnter, status, cbseen, boReset, td>>
+    /\ UNCHANGED <<cfg, now, pctx, prt, epoch, inst, snapw, chs, credit, creditR, needEnter, status, cbseen, boReset, boStop, td>>
 
 \* did the call (by its result) supersede the running instance?
 Superseded(c, e) ==
@@ -134,7 +146,7 @@ PRet(e) ==
                ELSE IF e.res = "nil" THEN (IF c.nilok THEN {} ELSE {"WaitWrong"})
                ELSE IF \E i \in c.errok : e.res = ErrName(i) THEN {} ELSE {"WaitWrong"})
          /\ Tick
-         /\ UNCHANGED <<cfg, now, pctx, prt, epoch, inst, snapw, chs, credit, creditR, needEnter, ctxTouch, status, cbseen, boReset, td>>
+         /\ UNCHANGED <<cfg, now, pctx, prt, epoch, inst, snapw, chs, credit, creditR, needEnter, ctxTouch, status, cbseen, boReset, boStop, td>>
     ELSE
     LET sup == Superseded(c, e)
         pctx2 == IF c.op \in {"setctx", "clearctx"} THEN c.c ELSE pctx
@@ -166,14 +178,14 @@ PRet(e) ==
     /\ calls' = Refresh([calls EXCEPT ![e.id].done = TRUE], pctx2, prt2, status2)
     /\ Tick
     /\ bad' = bad \cup (IF calls[e.id].done THEN {"Harness"} ELSE {})
-    /\ UNCHANGED <<cfg, now, inst, ctxTouch, cbseen, boReset, td>>
+    /\ UNCHANGED <<cfg, now, inst, ctxTouch, cbseen, boReset, boStop, td>>
 
 \* right after a superseding call returned: which active instances still have a live context
 PCtxSnap(actor, live) ==
     /\ bad' = bad \cup (IF actor \in DOMAIN snapw /\ snapw[actor] \cap live # {} THEN {"NotCancelled"} ELSE {})
     /\ snapw' = [a \in (DOMAIN snapw) \ {actor} |-> snapw[a]]
     /\ Tick
-    /\ UNCHANGED <<cfg, now, pctx, prt, epoch, inst, calls, chs, credit, creditR, needEnter, ctxTouch, status, cbseen, boReset, td>>
+    /\ UNCHANGED <<cfg, now, pctx, prt, epoch, inst, calls, chs, credit, creditR, needEnter, ctxTouch, status, cbseen, boReset, boStop, td>>
 
 PEnter(i, tag, key, dead) ==
     \* earlier runs of the same routine/state whose exit the container recorded (its exit callbacks
@@ -192,21 +204,30 @@ PEnter(i, tag, key, dead) ==
          \cup (IF i \in Insts THEN {"Harness"} ELSE {})
          \* C14: a routine that returned nil is not run again until RestartRoutine / a new routine or state
          \cup (IF ~td /\ ~cfg.burst /\ ~dead /\ prev # 0 /\ inst[prev].out = "ok" /\ credit < inst[prev].eclk /\ ~PendingRerun(FALSE)
+                  /\ ~(cfg.retry /\ RetryDueNow(key))
                THEN {"RerunAfterSuccess"} ELSE {})
          \* C14: an errored routine is re-run only by RestartRoutine, SetContext(restart), a new
          \* routine/state or (with retry) after a backoff interval
          \cup (IF ~td /\ ~cfg.burst /\ ~dead /\ prev # 0 /\ inst[prev].out = "err" /\ creditR < inst[prev].eclk /\ ~PendingRerun(TRUE)
-                  /\ ~(cfg.retry /\ now >= inst[prev].ltime + 10)
+                  /\ ~(cfg.retry /\ RetryDueNow(key))
                THEN {"RerunAfterError"} ELSE {})
+         \* C14 "and by nothing else": the routine is entered again although the latest instance
+         \* entered in the present epoch (no superseding call returned since), no call that may
+         \* re-run it returned or is pending, and no backoff retry of a recorded error is due
+         \cup (LET q == Latest IN
+               IF ~td /\ ~cfg.burst /\ ~dead /\ q # 0 /\ inst[q].key = key /\ inst[q].ep = epoch
+                  /\ creditR < inst[q].eclk /\ ~PendingRerun(TRUE)
+                  /\ ~(cfg.retry /\ ~inst[q].act /\ inst[q].out \in {"ok", "err"} /\ RetryDueNow(key))
+               THEN {"RerunNoCause"} ELSE {})
     /\ calls' = calls
-    /\ UNCHANGED <<cfg, now, pctx, prt, epoch, snapw, chs, credit, creditR, ctxTouch, cbseen, boReset, td>>
+    /\ UNCHANGED <<cfg, now, pctx, prt, epoch, snapw, chs, credit, creditR, ctxTouch, cbseen, boReset, boStop, td>>
 
 PLeave(i, out) ==
     LET o == IF out = "ctxret" THEN "ctx" ELSE out IN
     /\ inst' = [inst EXCEPT ![i] = [@ EXCEPT !.act = FALSE, !.out = o, !.lclk = clk + 1, !.ltime = now, !.cur = IsCurrent(i)]]
     /\ Tick
     /\ bad' = bad \cup (IF i \notin Insts \/ ~inst[i].act THEN {"Harness"} ELSE {})
-    /\ UNCHANGED <<cfg, now, pctx, prt, epoch, calls, snapw, chs, credit, creditR, needEnter, ctxTouch, status, cbseen, boReset, td>>
+    /\ UNCHANGED <<cfg, now, pctx, prt, epoch, calls, snapw, chs, credit, creditR, needEnter, ctxTouch, status, cbseen, boReset, boStop, td>>
 
 \* exit callback k ran for the exit of instance i (0: an instance that never entered the function)
 PExitCb(k, i, err) ==
@@ -221,33 +242,34 @@ PExitCb(k, i, err) ==
                ELSE IF i # 0 /\ err # ErrName(i) THEN {"ExitCbWrongErr"} ELSE {})
     \* the bookkeeping of the instance is done: its status is now visible to WaitExited
     /\ calls' = IF IsCurrent(i) THEN Refresh(calls, pctx, prt, i) ELSE calls
-    /\ UNCHANGED <<cfg, now, pctx, prt, epoch, inst, snapw, chs, credit, creditR, needEnter, ctxTouch, boReset, td>>
+    /\ UNCHANGED <<cfg, now, pctx, prt, epoch, inst, snapw, chs, credit, creditR, needEnter, ctxTouch, boReset, boStop, td>>
 
 \* C04: the channel returned by SetRoutine/SetState closed
 PChClosed(ch) ==
     /\ bad' = bad \cup (IF ch \in DOMAIN chs /\ chs[ch] \cap Active # {} THEN {"ChEarly"} ELSE {})
     /\ Tick
-    /\ UNCHANGED <<cfg, now, pctx, prt, epoch, inst, calls, snapw, chs, credit, creditR, needEnter, ctxTouch, status, cbseen, boReset, td>>
+    /\ UNCHANGED <<cfg, now, pctx, prt, epoch, inst, calls, snapw, chs, credit, creditR, needEnter, ctxTouch, status, cbseen, boReset, boStop, td>>
 
 PCancel(id) ==
     /\ calls' = IF id \in DOMAIN calls THEN [calls EXCEPT ![id].canc = TRUE] ELSE calls
     /\ Tick
-    /\ UNCHANGED <<cfg, now, pctx, prt, epoch, inst, snapw, chs, credit, creditR, needEnter, ctxTouch, status, cbseen, boReset, td, bad>>
+    /\ UNCHANGED <<cfg, now, pctx, prt, epoch, inst, snapw, chs, credit, creditR, needEnter, ctxTouch, status, cbseen, boReset, boStop, td, bad>>
 
 PTick(d) ==
     /\ now' = now + d
     /\ Tick
-    /\ UNCHANGED <<cfg, pctx, prt, epoch, inst, calls, snapw, chs, credit, creditR, needEnter, ctxTouch, status, cbseen, boReset, td, bad>>
+    /\ UNCHANGED <<cfg, pctx, prt, epoch, inst, calls, snapw, chs, credit, creditR, needEnter, ctxTouch, status, cbseen, boReset, boStop, td, bad>>
 
 PBo(op) ==
     /\ boReset' = IF op = "reset" THEN clk + 1 ELSE boReset
+    /\ boStop' = IF op = "stop" THEN clk + 1 ELSE boStop
     /\ Tick
     /\ UNCHANGED <<cfg, now, pctx, prt, epoch, inst, calls, snapw, chs, credit, creditR, needEnter, ctxTouch, status, cbseen, td, bad>>
 
 PTeardown ==
     /\ td' = TRUE
     /\ Tick
-    /\ UNCHANGED <<cfg, now, pctx, prt, epoch, inst, calls, snapw, chs, credit, creditR, needEnter, ctxTouch, status, cbseen, boReset, bad>>
+    /\ UNCHANGED <<cfg, now, pctx, prt, epoch, inst, calls, snapw, chs, credit, creditR, needEnter, ctxTouch, status, cbseen, boReset, boStop, bad>>
 
 \* Observation at a point where no library-internal step is possible.
 \* live/active: instances inside the function (with a live context); blk: blocked call ids;
@@ -266,7 +288,7 @@ QuietBad(live, active, blk, gstate) ==
     \* C14 liveness, only while nothing is inside the function
     \cup (IF needEnter # 0 /\ active = {} /\ pctx # 0 /\ prt # 0 THEN {"RestartLost"} ELSE {})
     \cup (IF cfg.retry /\ curLeft /\ inst[L].out = "err" /\ active = {} /\ pctx # 0 /\ prt # 0
-              /\ untouched /\ now >= inst[L].ltime + 13
+              /\ untouched /\ now >= inst[L].ltime + 13 /\ boStop < inst[L].lclk
           THEN {"RetryLost"} ELSE {})
     \cup (IF cfg.retry /\ curLeft /\ inst[L].out = "ok" /\ untouched /\ boReset < inst[L].lclk THEN {"BackoffNotReset"} ELSE {})
     \cup (IF \E id \in blk : id \in DOMAIN calls /\ calls[id].op = "waitexited"
@@ -288,7 +310,7 @@ BurstQuietBad(live, active, gstate) ==
 PQuiet(live, active, blk, gstate) ==
     /\ bad' = bad \cup (IF td THEN {} ELSE IF cfg.burst THEN BurstQuietBad(live, active, gstate) ELSE QuietBad(live, active, blk, gstate))
     /\ Tick
-    /\ UNCHANGED <<cfg, now, pctx, prt, epoch, inst, calls, snapw, chs, credit, creditR, needEnter, ctxTouch, status, cbseen, boReset, td>>
+    /\ UNCHANGED <<cfg, now, pctx, prt, epoch, inst, calls, snapw, chs, credit, creditR, needEnter, ctxTouch, status, cbseen, boReset, boStop, td>>
 
 -----------------------------------------------------------------------------
 (* Properties *)
@@ -300,7 +322,7 @@ Violated == (IF NoOverlap THEN {} ELSE {"Overlap"}) \cup bad
 
 C04Names == {"Overlap", "ChEarly"}
 C05Names == {"NotCancelled", "LiveMany", "LiveOrphan", "LiveStaleCtx", "LiveStale", "StateLost"}
-C14Names == {"RerunAfterSuccess", "RerunAfterError", "RestartLost", "RetryLost", "BackoffNotReset",
+C14Names == {"RerunAfterSuccess", "RerunAfterError", "RerunNoCause", "RestartLost", "RetryLost", "BackoffNotReset",
              "WaitWrong", "WaitStuck", "ExitCbDup", "ExitCbFabricated", "ExitCbWrongErr", "ExitCbMissing"}
 Safe_C04 == NoOverlap /\ bad \cap C04Names = {}
 Safe_C05 == bad \cap C05Names = {}
